@@ -2,8 +2,8 @@
 C01 — BinaryPigeonholePrinciple(pigeons, holes): the satisfying assignments are the injections
 from pigeons to holes, written in binary.
 -/
-import Lemmas.FamBinary
-import Lemmas.FamPigeon
+import Lemmas.C01Binary
+import Lemmas.C01Pigeon
 namespace Cnfgen.C01
 open Cnfgen Cnfgen.Fam
 
